@@ -64,7 +64,8 @@ SURVIVORS = {
  # ---- C18 ---------------------------------------------------------------------------
  'c18_clip_float': ('objects.py', "                val = np.clip(new_val, val_min, val_max)", "                val = np.clip(new_val.astype(float), val_min, val_max).astype(object)"),
  # ---- C19 ---------------------------------------------------------------------------
- 'c19_rawcast': ('functions.py', "        return raw_cast(x.val) * raw_cast(y.val) * precision_cast(2**(n_frac - x.n_frac - y.n_frac))", "        return x.val * y.val * precision_cast(2**(n_frac - x.n_frac - y.n_frac))"),
+ 'c19_mul_bits': ('functions.py', "        x_val, y_val = _raw_operands(x, y, x.n_word + y.n_word + 1)", "        x_val, y_val = _raw_operands(x, y, max(x.n_word, y.n_word) + 1)"),
+ 'c19_store_mag': ('objects.py', "                _val_mag = max(_val_mag, max(_val_mag, 1) * conv_factor)", "                _val_mag = max(_val_mag, 1)"),
  # ---- C20 ---------------------------------------------------------------------------
  'c20_shallow_like': ('objects.py', "            if isinstance(like, Fxp):\n                self.__dict__ = copy.deepcopy(like.__dict__)", "            if isinstance(like, Fxp):\n                self.__dict__ = copy.copy(like.__dict__)"),
  'c20_cfg_nodeep': ('objects.py', "                self.config = _config.deepcopy()", "                self.config = _config"),
@@ -90,6 +91,8 @@ KILLED_BY_SUITE = [
 # Survive the suite but are NOT usable: behaviourally equivalent, or differ only outside
 # the property's stated domain (analysis in DESIGN.md section 6):
 EQUIVALENT_OR_OUT_OF_DOMAIN = [
+ "c19_rawbits_le: `n_bits < _n_word_max` -> `<=` in functions._raw_operands: the bit bound passed by add/sub/mul has one spare bit, so int64 still "
+ "holds every aligned operand and result when n_bits == 64 (no observable change)",
  "c17_recip: `val / self.scale` -> `val * (1 / self.scale)`: for every admitted case the exact quotient (v-b)/s is a representable double, and "
  "fl(x * fl(1/s)) = x/s then (error of fl(1/s) is below half an ulp of the quotient), so the stored codes are identical inside C17's domain",
  "c06_fracloop: `r_i >= 0.0` -> `> 0.0` (loop exits anyway when r_i == 0)",
